@@ -18,14 +18,17 @@ changes —, same element and position behind every access id).
 Scope. Proved for histories of Hopen/Hclose/Hstartaccess/Hstartwrite/Hsetlength/HLcreate/HLconvert/HLsetblockinfo/
 Happendable/Hseek/Htell/Hinquire/Hread/Hwrite/Htrunc/Hendaccess/Hdeldd with DD caching on (the default), under the side
 conditions `Safe` (`H4/ElemSpec.lean`, `OpSafe`), each of which is either plain API discipline (fresh access id, user
-tag, non-empty write, `Hclose` with no id open) or excludes one of the open findings F18, F19, F20, F24 (reproductions
+tag, non-empty write, `Hclose` with no id open) or excludes one of the open findings F19, F20, F24 (reproductions
 under the worker directory `repro/`; witness examples in section 6 below; keys in known_findings.json).
+F18 (Htrunc on a linked-block element cut its description record) and F23 (read beyond the end of an appendable element
+failed) were repaired in /repo (1e2fd75: refused; 21b8ab5: 0 bytes) and need no side condition; F20 was repaired for the in-place growth path only (998a325) and stays a condition of
+`Hopen` for the remaining paths (space beyond the recomputed `f_end_off` handed out again by `HPgetdiskblock`).
 A failing call is always admitted by `specStep`: no liveness is claimed except `hlpread_ok`; the reads that fail
-although a byte array would deliver (F23, F26) are engine findings. Tied to the C by the engine only (modelled and
+although a byte array would deliver (F26, and `Htrunc` refused on linked-block elements) are engine findings. Tied to the C by the engine only (modelled and
 driven, no theorem): `Hcache(FALSE)` write-through mode, `Hdupdd`, `Hlength/Hgetelement/Hputelement`. Not modelled:
 int32 ranges (the model is unbounded), allocation failure, the bytes inside block-table elements (the tables live in
-`File.links`; the file holds zeros there, which no call on a user element can observe — only an F19-dangling id can), external/compressed/chunked elements, Hnextread/Hfind, the
-byte encoding of DD blocks (extents only: C02/C12). -/
+`File.links`; the file holds zeros there, which no call on a user element can observe — only an F19-dangling id can),
+external/compressed/chunked elements, Hnextread/Hfind, the byte encoding of DD blocks (extents only: C02/C12). -/
 namespace H4.Props.C01
 open H4.Elem H4.Gen.Hdf H4.Gen.Elem
 
@@ -110,7 +113,8 @@ theorem reopen_preserves_partial (f : File) (hw : WFE f) (hc : Coh f) (wr : Bool
 /-! ## 4. the element-level calls, one by one (frame included, see the header) -/
 
 /-- **hread_spec**: `Hread` on any well-formed world, any access id (valid or not), any length: either FAIL with nothing
-    changed, or count `readCount` and bytes `specRead` of the element's byte string, position advanced by the count.
+    changed, or count `readCount` and bytes `specRead` of the element's byte string, position advanced by the count
+    (0 bytes at or beyond the end, also on a contiguous appendable element positioned past its end: 21b8ab5).
     No side condition. -/
 theorem hread_spec (w : World) (hw : WFW w) (h : Nat) (n : Int) : StepOK w (.read h n) := stepOK_read w hw h n
 
@@ -119,7 +123,7 @@ theorem hread_spec (w : World) (hw : WFW w) (h : Nat) (n : Int) : StepOK w (.rea
     blocks; silent promotion of an appendable element followed by a linked-block write), position advanced by `|bs|`,
     every other element untouched.
     Side conditions (`OpSafe`): `bs ≠ []`; if the write promotes the element, no second id is open on it (F19); no second
-    id on an element that has no length yet (F24). Without them the statement is false for /repo (see REPORT.md). -/
+    id on an element that has no length yet (F24). Without them the statement is false for /repo (section 6). -/
 theorem hwrite_spec_partial (w : World) (hw : WFW w) (h : Nat) (bs : Bytes) (hs : OpSafe w (.write h bs)) :
     StepOK w (.write h bs) := stepOK_write w hw h bs hs
 
@@ -128,10 +132,22 @@ theorem hwrite_spec_partial (w : World) (hw : WFW w) (h : Nat) (bs : Bytes) (hs 
 theorem hseek_spec_partial (w : World) (hw : WFW w) (h : Nat) (off : Int) (origin : Nat) (hs : OpSafe w (.seek h off origin)) :
     StepOK w (.seek h off origin) := stepOK_seek w hw h off origin hs
 
-/-- **htrunc_spec**: `Htrunc` cuts the byte string (`take n`), clamps the position. Side condition: the element is not
-    a linked-block element — there the C changes the length of the description record instead (F18). -/
-theorem htrunc_spec_partial (w : World) (hw : WFW w) (h n : Nat) (hs : OpSafe w (.trunc h n)) :
-    StepOK w (.trunc h n) := stepOK_trunc w hw h n hs
+/-- **htrunc_spec**: `Htrunc` on any access id: either FAIL with nothing changed, or the byte string is cut (`take n`)
+    and the position clamped. No side condition (before 1e2fd75 the call cut the description record of a linked-block
+    element, F18). -/
+theorem htrunc_spec (w : World) (hw : WFW w) (h n : Nat) : StepOK w (.trunc h n) := stepOK_trunc w hw h n
+
+/-- F18 as it stands: truncating a linked-block element (created as such or silently promoted) is *refused*, loudly
+    and without any change of state — the operation is still missing for that storage form (known finding
+    `elem-trunc-linked`) -/
+theorem htrunc_linked_refused (w : World) (h n : Nat) (a : Acc) (ha : w.acc h = some a) (hsp : a.special = true) :
+    htrunc w h n = (w, .fail) := H4.Elem.htrunc_linked_refused w h n a ha hsp
+
+/-- the gap fill of 998a325 does not depend on what the file held: every byte between the old end `o+l` of a
+    contiguous element and the write position `o+p` is zero after it (proved from the write itself, not from the
+    invariant "nothing but zeros beyond `f_end_off`") -/
+theorem hwrite_gap_zero_filled (f : File) (o l p x : Nat) (h1 : o + l ≤ x) (h2 : x < o + p) :
+    rd (f.pwrite (o + l) (zeros (p - l))).disk x = 0 := growth_gap_zero f o l p x h1 h2
 
 theorem hstartaccess_spec (w : World) (hw : WFW w) (h fi tag ref : Nat) (wr app : Bool)
     (hs : OpSafe w (.startaccess h fi tag ref wr app)) : StepOK w (.startaccess h fi tag ref wr app) :=
@@ -163,7 +179,7 @@ theorem hlcreate_spec (w : World) (hw : WFW w) (h fi tag ref blen nblk : Nat) (h
     interleaved access ids, on contiguous, silently promoted and linked-block elements, the list of results the
     implementation returns is a list of results of growable byte arrays (`specRun`: every count, every byte read,
     every length and position), and the final state is the byte arrays' final state.
-    That is FALSE for /repo (findings F18, F19, F20, F24: concrete histories in section 6 and in REPORT.md). Proved is
+    That is FALSE for /repo (findings F19, F20, F24: concrete histories in section 6). Proved is
     the statement under `Safe`, whose conjuncts name exactly those situations (plus: access ids are fresh when opened,
     tag/refs are user tags, writes are not empty, `Hclose` is not called with ids still open on the file).
     The theorem also re-establishes the invariant `WFW` and gives the call-by-call simulation `Refines`. -/
@@ -240,10 +256,30 @@ example : ∃ s li, ((run {} (demo.take 11)).1.file 0).select 100 1 = some s ∧
 
 /-! ## 6. what the side conditions exclude: the model follows the C as it is -/
 
-/-- F18: `Htrunc` on a linked-block element answers 3 but the element keeps its 10 bytes -/
+/-- F18 (since 1e2fd75): `Htrunc` on a linked-block element fails; length, bytes and position stay -/
 example : (run {} [.open 0 DFACC_CREATE 16, .hlcreate 1 0 100 1 4 2, .write 1 [1, 2, 3, 4, 5, 6, 7, 8, 9, 10], .trunc 1 3,
       .inquire 1, .seek 1 0 DF_START, .read 1 0]).2 =
-    [.ok, .ok, .num 10, .num 3, .info 10 0 3 1, .ok, .data 10 [1, 2, 3, 4, 5, 6, 7, 8, 9, 10]] := by decide +kernel
+    [.ok, .ok, .num 10, .fail, .info 10 0 10 1, .ok, .data 10 [1, 2, 3, 4, 5, 6, 7, 8, 9, 10]] := by decide +kernel
+
+/-- F23 (since 21b8ab5): a read positioned beyond the end of an appendable element delivers 0 bytes -/
+example : (run {} [.open 0 DFACC_CREATE 16, .startaccess 1 0 100 1 true true, .write 1 [1, 2, 3], .seek 1 5 DF_START,
+      .read 1 1, .tell 1]).2 = [.ok, .ok, .num 3, .ok, .data 0 [], .num 5] := by decide +kernel
+
+/-- F20, the path repaired by 998a325: 36 bytes `aa` cut off by `Htrunc` stay in the file beyond the `f_end_off`
+    recomputed at `Hopen`; growing the element in place over them now leaves zeros in the gap … -/
+example : (run {} [.open 0 DFACC_CREATE 16, .startaccess 1 0 100 1 true false, .write 1 (List.replicate 40 170), .trunc 1 4,
+      .endaccess 1, .close 0, .open 0 DFACC_RDWR 16, .startaccess 2 0 100 1 true true, .seek 2 6 DF_START, .write 2 [1, 2],
+      .seek 2 0 DF_START, .read 2 0]).2 =
+    [.ok, .ok, .num 40, .num 4, .ok, .ok, .ok, .ok, .ok, .num 2, .ok, .data 8 [170, 170, 170, 170, 0, 0, 1, 2]] := by
+  decide +kernel
+
+/-- … F20, a remaining path (excluded by `Safe` at the `Hopen`): the same stale bytes are handed out by
+    `HPgetdiskblock` for the first block of a new linked-block element and show up in its never-written head -/
+example : (run {} [.open 0 DFACC_CREATE 16, .startaccess 1 0 100 1 true false, .write 1 (List.replicate 40 170), .trunc 1 4,
+      .endaccess 1, .close 0, .open 0 DFACC_RDWR 16, .hlcreate 2 0 101 1 8 2, .seek 2 6 DF_START, .write 2 [1, 2],
+      .seek 2 0 DF_START, .read 2 0]).2 =
+    [.ok, .ok, .num 40, .num 4, .ok, .ok, .ok, .ok, .ok, .num 2, .ok, .data 8 [170, 170, 170, 170, 170, 170, 1, 2]] := by
+  decide +kernel
 
 /-- F19: a second id open on an element that gets promoted keeps pointing at the DD slot, which now holds the
     16-byte description record: it reads that record instead of the data -/
